@@ -6,6 +6,7 @@ import (
 	"time"
 
 	"github.com/aws/aws-sdk-go/aws/awserr"
+	"github.com/johannesboyne/gofakes3/internal/verifhook"
 )
 
 const (
@@ -343,6 +344,7 @@ func CopyObject(db Backend, srcBucket, srcKey, dstBucket, dstKey string, meta ma
 		return
 	}
 	defer c.Contents.Close()
+	verifhook.At("copy.between-get-put")
 
 	_, err = db.PutObject(dstBucket, dstKey, meta, c.Contents, c.Size)
 	if err != nil {
